@@ -88,6 +88,7 @@ def check_chunk(args):
     path = os.path.join(d, "t" + ext)
     try:
         for case in cases:
+            core.tick(case, 20)
             text = case["text"]
             with open(path, "w", newline="") as f:
                 f.write(text)
@@ -145,9 +146,9 @@ def cli_cov_sample(ctx, cases, n):
             json.dump(db, f)
         env = dict(os.environ, PYTHONPATH=core.repo_path())
         env.pop("CBI_VERIF", None)
-        r = subprocess.run([sys.executable, "-m", "codebasin.coverage", "compute", "-S", d, "-o",
-                            os.path.join(d, "cov.json"), os.path.join(d, "cc.json")], cwd=d, env=env,
-                           capture_output=True, text=True, timeout=300)
+        r = core.run_impl([sys.executable, "-m", "codebasin.coverage", "compute", "-S", d, "-o",
+                            os.path.join(d, "cov.json"), os.path.join(d, "cc.json")], 300, cwd=d, env=env,
+                           capture_output=True, text=True)
         if r.returncode != 0:
             ctx.fail("G", ["cli"], "cbi-cov-failed", r.stdout[-500:] + r.stderr[-500:])
             return
